@@ -16,11 +16,12 @@ A10 = ("A10 assumed contracts inside the engine-V proof of the constructor: tupl
        "callers use the constructor by its proved contract (heavy.ImmutableKnotVector.__new__); in the proofs of __or__ / __and__ (C17): `.knots` is the strictly "
        "increasing list of the distinct values of the vector, mult(x) of a knot x of the vector lies in [1, degree + 1], set(a) & set(b) sorted is the increasing "
        "list of the common values (all three checked per shape by engine S); list entries are modelled as reals, so the TypeError of `[knot] * non-int` is not excluded at that level. "
-       "Call-site contracts of kv-level callees that ARE under an engine-V contract: `.degree`, `.npts`, `.limits`, `__valid_single`, `__span_single`, `span(node)`, `valid(…)`, "
-       "`Math.factorial`, `KnotVector.shift`, `internal = instance` are discharged against the callee's contract (contracts/callsites.py + pyvc/conform.py, run in every check "
-       "that uses them, together with the callee's own proof); still ASSUMED (callee contract proved, correspondence with the handler by review only): `mult` as a contiguous block, "
-       "`internal ± nodes` / `|` / `&` as seen by the KnotVector facade, insert / remove / scale / normalize and the in-place operators as seen by their callers, "
-       "`difference_vector` as seen by `difference_matrix`, the generators as seen by uniform / random")
+       "Call-site contracts of kv-level callees that ARE under an engine-V contract: `.degree`, `.npts`, `.limits`, `__valid_single`, `__span_single`, `span(node)`, `valid(...)`, "
+       "`Math.factorial`, `KnotVector.shift / scale / insert / remove / normalize`, `internal = instance`, `internal + nodes`, `internal - nodes`, `GeneratorKnotVector.integer / weight` and the "
+       "in-place operators `+= -= |= &=` as used by the non-in-place ones are discharged against the callee's contract (contracts/callsites.py + pyvc/conform.py, run in every check "
+       "that uses them, together with the callee's own proof; an arbitrary ImmutableKnotVector value is taken under its class invariant WF, which the constructor contract proves); still ASSUMED "
+       "(callee contract proved, correspondence with the handler by review only): `mult` as a contiguous block, `internal | other` / `& other` as seen by the KnotVector facade, "
+       "`internal = sequence`, `*=`, `/=` (conformance not decided within budget), `difference_vector` as seen by `difference_matrix` (the handler assumes degree >= 1)")
 A11 = ("A11 shape-level contracts of curves.py (engine V, C15): a knot vector is seen through (npts, degree, number of distinct knots) only; assumed callee "
        "contracts: heavy.Operations.knot_insert / degree_increase return matrices of the stated shape for a legal request (engine S checks the shapes per shape "
        "in C04 / C06), KnotVector + / - nodes returns a new vector of the stated length with an inferred degree, fit_curve fills a FRESH curve with npts points and, for a weighted "
